@@ -128,9 +128,12 @@ def run_harness(bindir, cases, timeout_ms=4000, stop_after_hangs=6):
         got = []
         for l in lines:
             try:
-                got.append(json.loads(l))
+                g = json.loads(l)
             except ValueError:
                 break
+            for st in g.get("steps", []):
+                normalize_step(st)
+            got.append(g)
         res += got
         i += len(got)
         if len(got) < len(batch):
@@ -385,6 +388,41 @@ def overlay_after(case, upto=None):
     return fsys
 
 
+def pnorm(p):
+    """std::path component normalisation of a relative path as used by PathBuf's Eq / Hash: redundant separators and
+    interior / trailing `.` components do not count (no `..`, no leading `./` in this group's generators)"""
+    if p is None or p.startswith("?"):
+        return p
+    segs = [x for x in p.split("/") if x not in ("", ".")]
+    return "/".join(segs)
+
+
+def normalize_step(s):
+    """all path names of a harness step normalised by components (identity for the plain spellings)"""
+    n = pnorm
+    if "ids" in s:
+        s["ids"] = [[n(p), i] for p, i in s["ids"]]
+    if "fc" in s:
+        s["fc"] = [[n(p), c] for p, c in s["fc"]]
+    if "rim" in s:
+        s["rim"] = [[n(p), None if m is None else [[a, b, n(t)] for a, b, t in m]] for p, m in s["rim"]]
+    if s.get("root") is not None:
+        s["root"] = n(s["root"])
+    for k in ("files", "diag_keys"):
+        if s.get(k) is not None:
+            s[k] = sorted(n(p) for p in s[k])
+    for k in ("diagnostics", "outline"):
+        if s.get(k) is not None:
+            s[k] = {n(p): v for p, v in s[k].items()}
+    if s.get("links") is not None:
+        s["links"] = {n(p): (None if l is None else [[a, b, n(t)] for a, b, t in l]) for p, l in s["links"].items()}
+    if "reads" in s:
+        s["reads"] = [n(p) if len(p) > 1 else p for p in s["reads"]]
+    if "host" in s:
+        normalize_step(s["host"])
+    return s
+
+
 def pjoin(d, s):
     # PathBuf::join on the modelled fragment (relative, no "." / ".." / empty segments)
     if s == "":
@@ -397,7 +435,7 @@ def resolve_ref(fsys, path, s, include_dir):
     if include_dir is not None:
         dirs.append(include_dir)
     for d in dirs:
-        c = pjoin(d, s)
+        c = pnorm(pjoin(d, s))
         if c in fsys:
             return c
     return None
@@ -502,11 +540,18 @@ def evaluate(bindir, exe, cases, timeout_ms=3000, stop_after_hangs=6, reached=No
     impl = run_harness(bindir, cases, timeout_ms, stop_after_hangs)
     it = Interner()
     lines, ctexts = [], []
+    in_model = []
     for c in cases:
+        if c.get("no_model"):          # spellings outside the Coq path algebra ('.', '//'): oracle only
+            in_model.append(False)
+            ctexts.append(None)
+            continue
         l, tx = encode_case(c, absmap, it, fuel=fuel, reached=reached)
         lines.append(l)
         ctexts.append(tx)
-    model = run_model(exe, lines)
+        in_model.append(True)
+    mres = iter(run_model(exe, lines) if lines else [])
+    model = [next(mres) if f else None for f in in_model]
     LAST_BATCH.update({"cases": cases, "model": model, "absmap": absmap, "it": it, "fuel": fuel, "reached": reached})
     out = []
     for c, r, m, tx in zip(cases, impl, model, ctexts):
@@ -521,7 +566,7 @@ def evaluate(bindir, exe, cases, timeout_ms=3000, stop_after_hangs=6, reached=No
         memfs = c.get("mode", "memfs") == "memfs"
         has_raw = any(k == "raw" for k, _, _ in c["history"])
         root = None
-        for k, (s, ms) in enumerate(zip(r["steps"], m)):
+        for k, (s, ms) in enumerate(zip(r["steps"], m if m is not None else [None] * len(r["steps"]))):
             kind, p, _ = c["history"][k]
             if kind != "raw":
                 root = p
@@ -536,11 +581,13 @@ def evaluate(bindir, exe, cases, timeout_ms=3000, stop_after_hangs=6, reached=No
                 ref = reference(fsys, absmap, root, c.get("include_dir"), reached)
                 for clause, detail in oracle_step(obs, ref, root, fsys):
                     rec["bad"].append((clause, detail, k))
+            if m is None:
+                continue
             mo = norm_model_step(ms, it, tx, with_reads=memfs)
             key = diff_obs(obs, mo)
             if key is not None and rec["tie"] is None:
                 rec["tie"] = (k, key, obs.get(key), mo.get(key))
-        if len(m) != len(r["steps"]) and rec["tie"] is None:
+        if m is not None and len(m) != len(r["steps"]) and rec["tie"] is None:
             rec["tie"] = (min(len(m), len(r["steps"])), "length", len(r["steps"]), len(m))
     return out
 
@@ -660,7 +707,7 @@ def lsp_observe(out, script, marks):
                 snaps.append(dict(cur))          # everything published before the next notification was sent
             k += 1
         elif e.get("ev") == "publish":
-            cur[e["path"]] = sorted([list(d["range"]) + [d["message"]] for d in e["diagnostics"]])
+            cur[pnorm(e["path"])] = sorted([list(d["range"]) + [d["message"]] for d in e["diagnostics"]])
     if k >= 0:
         snaps.append(dict(cur))
     if len(snaps) != len(marks):
